@@ -245,6 +245,9 @@ NOTES = {
     'C14-lanczos-norm-before-reorth': 'round 8, first run: MISSED (the normalisation proof was lost, no failing input). r_C14 has start vectors in a two-dimensional invariant subspace up to 1e-15 .. 1e-12 of a Hermitian matrix of norm 1e4',
     'C02-automaton-start-node-qnum': 'round 8, first run: MISSED by the C02 check (the C17 check has the clause terminal_qnums). r_C02 converts an automaton with a charged start terminal into an MPO',
     'C17-opchain-matrix-inplace-coeff': 'round 8, first run: MISSED. r_C17 evaluates chains with a complex coefficient over real and integer local matrices',
+    'C08-twosite-left-block-check': 'round 7, first run: MISSED (states always had leading bond label 0). r_C08 / r_C09 / r_C10 shift all bond labels of the start state by a constant in every sixth case',
+    'C20-spin-molecular-default': 'round 7, first run: MISSED (the option was always passed explicitly). r_C20 also calls spin_molecular_hamiltonian_mpo with its documented default',
+    'C04-average-real-if-close': 'round 8, first run: MISSED (expectation values were of order one and compared with an absolute floor). r_C04 scales the state to norm 1e-8 in every fourth average case and compares relative to the reference scale',
     'C17-optree-node-children-alias': 'round 5, first run: MISSED. r_C17 builds two tree nodes from one list and extends one; engine F distinguishes keeping the *elements* of a list (allowed for nodes) from keeping the list itself',
     'C06-zero-coeff-filter-tolerance': 'first run: MISSED. r_C06 now includes parameter points scaled by 1e-9 ... 1e+12 (every parameter value is legal)',
 }
